@@ -4,6 +4,7 @@ import (
 	"fmt"
 	"os"
 	"strings"
+	"time"
 )
 
 // cmdReplay re-runs the obligation recorded in a replay file against the current tree.
@@ -33,6 +34,15 @@ func cmdReplay(args []string) {
 	repo := "/repo"
 	if len(args) > 1 {
 		repo = args[1]
+	}
+	if i := strings.Index(string(data), "--- BEGIN GO TEST"); i >= 0 {
+		src := string(data)[i:]
+		src = src[strings.Index(src, "\n")+1:]
+		if j := strings.Index(src, "--- END GO TEST ---"); j >= 0 {
+			src = src[:j]
+			out, _ := runOverlayTest(repo, "zz_govc_cex_test.go", src, "^TestGovcCex$", 90*time.Second)
+			fmt.Printf("\n--- the Go test above re-run on the current tree of %s ---\n%s\n", repo, out)
+		}
 	}
 	e, err := loadEngine(repo)
 	if err != nil {
